@@ -30,6 +30,9 @@ package retrypolicy
 //@   ensures [C13.maxduration.clamp] result == max(0, ite(e.maxDuration != 0, min(delay, e.maxDuration - elapsed), delay))
 //@   ensures [C13.maxduration.nonnegative] result >= 0 && (e.maxDuration != 0 ==> result <= max(0, e.maxDuration - elapsed))
 //@   modifies nothing
+//@   witness delay := delay
+//@   witness elapsed := elapsed
+//@   witness maxDuration := e.maxDuration
 
 // fixed delay / backoff / random delay. The backoff product is computed in float64 (fix for finding F3):
 // float64 arithmetic by the real rounding model; the float32 factor enters by its exact value.
